@@ -11,8 +11,9 @@ package c20
 //     later request AFTER it happened (when it is collected);
 //   - causal facts that need no clock (a peer whose every announcement started
 //     after Add returned is never asked);
-//   - a request collected later than a grace period after Add returned, judged
-//     only when the collector itself was never stalled;
+//   - a request collected later than a grace period (10 pull delays) after Add
+//     returned, judged only when neither the collector nor three canary
+//     goroutines ever overslept by more than 20 ms during the run;
 //   - static size bounds.
 // A pull that does not show up within the run is never a violation here.
 
@@ -38,8 +39,8 @@ import (
 const (
 	bDelay      = 20 * time.Millisecond
 	bTolerance  = time.Millisecond
-	bGrace      = 5 * bDelay
-	bStallLimit = 25 * time.Millisecond
+	bGrace      = 10 * bDelay
+	bStallLimit = 20 * time.Millisecond
 	bWorkers    = 8
 )
 
@@ -172,6 +173,33 @@ func TestConcurrentRealClock(t *testing.T) {
 			}
 		}()
 
+		// canaries: if any goroutine of this process oversleeps by more than the stall limit, the run is
+		// treated as starved and the grace-period clause is not judged
+		var canaryMax int64
+		var cwg sync.WaitGroup
+		for c := 0; c < 3; c++ {
+			cwg.Add(1)
+			go func() {
+				defer cwg.Done()
+				last := time.Now()
+				for {
+					select {
+					case <-stop:
+						return
+					default:
+					}
+					time.Sleep(time.Millisecond)
+					now := time.Now()
+					for d := int64(now.Sub(last)); ; {
+						if old := atomic.LoadInt64(&canaryMax); d <= old || atomic.CompareAndSwapInt64(&canaryMax, old, d) {
+							break
+						}
+					}
+					last = now
+				}
+			}()
+		}
+
 		anns := make([][]bAnn, bWorkers)
 		var wg sync.WaitGroup
 		startGate := make(chan struct{})
@@ -216,6 +244,10 @@ func TestConcurrentRealClock(t *testing.T) {
 		time.Sleep(bGrace + 3*bDelay)
 		close(stop)
 		<-collected
+		cwg.Wait()
+		if d := time.Duration(atomic.LoadInt64(&canaryMax)); d > maxBeat {
+			maxBeat = d
+		}
 		endPending, endActive := tracker.VerifC20PendingLen(), len(tracker.VerifC20ActivePulls())
 
 		// ---- oracle (single goroutine from here on) ----
@@ -300,14 +332,17 @@ func TestConcurrentRealClock(t *testing.T) {
 			}
 			// P4 with grace: nothing collected long after Add returned (only if the collector never stalled)
 			late := 0
+			var lateBy []string
 			for _, r := range l {
-				if r.at.Sub(arrivedAt[hi]) > bGrace {
+				if d := r.at.Sub(arrivedAt[hi]); d > bGrace {
 					late++
+					lateBy = append(lateBy, d.String())
 				}
 			}
 			if late > 0 {
 				if stalled {
 					evid.Count("b.inconclusive.late-request-but-collector-stalled")
+					evid.Sample("b.late-but-stalled", map[string]interface{}{"late_by": lateBy, "max_oversleep": maxBeat.String()})
 				} else {
 					t.Fatalf("P4 violated: %d request(s) for h%d were issued more than %v after Add(h%d) had returned (collector heartbeat <= %v)", late, hi, bGrace, hi, maxBeat)
 				}
